@@ -383,6 +383,48 @@ def irregular_variants(rng):
                                             'relationships/notesSlide" Target="%s"/></Relationships>' % tgt).encode())
                 zo.writestr(n, data)
         out.append((f"generated-deck(notes slide: {variant})", o.getvalue()))
+    # -- a notes slide but no notes master anywhere: neither the presentation part nor the notes slide relates to one
+    # -- (reading the notes placeholders' geometry must not conjure one up)
+    o = io.BytesIO()
+    with zipfile.ZipFile(o, "w", zipfile.ZIP_DEFLATED) as zo:
+        for n in z.namelist():
+            data = z.read(n)
+            if n.startswith("ppt/notesMasters/"):
+                continue
+            if n == "ppt/_rels/presentation.xml.rels" or re.fullmatch(r"ppt/notesSlides/_rels/notesSlide\d+\.xml\.rels", n):
+                data = re.sub(rb'<Relationship [^>]*relationships/notesMaster"[^>]*/>', b"", data)
+            if n == "ppt/presentation.xml":
+                data = re.sub(rb"<p:notesMasterIdLst>.*?</p:notesMasterIdLst>", b"", data, flags=re.S)
+            if n == "[Content_Types].xml":
+                data = re.sub(rb'<Override [^>]*notesMasters/[^>]*/>', b"", data)
+            zo.writestr(n, data)
+    out.append(("generated-deck(notes slide, no notes master in the package)", o.getvalue()))
+    # -- a slide-id entry whose relationship was voided (Target="slides/NULL": the loader drops it, the documented case),
+    # -- behind valid entries, in a deck whose slide parts are not numbered in presentation order: the first access to
+    # -- the slide collection raises; nothing may have been renamed by then
+    prs = build_deck()
+    for _ in range(2):
+        prs.slides.add_slide(prs.slide_layouts[6]).shapes.add_textbox(0, 0, 9, 9).text_frame.text = "y"
+    b = io.BytesIO(); prs.save(b)
+    data0 = renumber_slides(b.getvalue(), random.Random(3)) or b.getvalue()
+    for attempt in range(6):
+        data0 = renumber_slides(b.getvalue(), random.Random(attempt))
+        if data0 and b"slide2.xml" in data0:
+            break
+    z = zipfile.ZipFile(io.BytesIO(data0 or b.getvalue()))
+    pres = z.read("ppt/presentation.xml").decode("utf-8")
+    rids = re.findall(r'<p:sldId [^>]*r:id="(rId\d+)"', pres)
+    if len(rids) >= 3:
+        bad = rids[-1] if rng.random() < 0.5 else rids[len(rids) // 2]
+        o = io.BytesIO()
+        with zipfile.ZipFile(o, "w", zipfile.ZIP_DEFLATED) as zo:
+            for n in z.namelist():
+                data = z.read(n)
+                if n == "ppt/_rels/presentation.xml.rels":
+                    data = re.sub((r'(<Relationship [^>]*Id="%s"[^>]*Target=")[^"]*(")' % bad).encode(), rb"\1slides/NULL\2", data)
+                    data = re.sub((r'(<Relationship [^>]*Target=")[^"]*("[^>]*Id="%s")' % bad).encode(), rb"\1slides/NULL\2", data)
+                zo.writestr(n, data)
+        out.append(("generated-deck(a slide id whose relationship is voided, slide parts out of order)", o.getvalue()))
     return out
 
 
@@ -600,11 +642,19 @@ def read_rel_sets(data):
     return out
 
 
-def traverse_and_save(deck_bytes, rng, ctx):
+def traverse_and_save(deck_bytes, rng, ctx, blame=None):
+    """`blame`: (member name, list) - after every call the canonical form of that part is compared with what it was and
+    the accessor that changed it is appended to the list (used only to explain a difference already found)"""
     from pptx import Presentation
 
     prs = Presentation(io.BytesIO(deck_bytes))
     calls = [0]
+    watch = None
+    if blame is not None:
+        from harness import xmllab as X
+        for pn, el in X.xml_parts(prs.part.package):
+            if pn.lstrip("/") == blame[0].lstrip("/"):
+                watch = [el, R.canon(el)]
 
     def access(obj, cls, name, ctx_el):
         calls[0] += 1
@@ -612,7 +662,14 @@ def traverse_and_save(deck_bytes, rng, ctx):
             return iter(obj)
         if name == "__len__":
             return len(obj)
-        v = getattr(obj, name)
+        try:
+            v = getattr(obj, name)
+        finally:
+            if watch is not None:
+                c = R.canon(watch[0])
+                if c != watch[1]:
+                    watch[1] = c
+                    blame[1].append(f"{type(obj).__name__}.{name}")
         if rng.random() < 0.05:      # repetition
             getattr(obj, name)
         return v
@@ -682,7 +739,13 @@ def end_to_end(ctx, label, data, lines, metas):
         lines.append(f"c12.same {','.join(map(str, roots))} {','.join(map(str, inner))} {T.encode(ra)} | {T.encode(rb)}")
         metas.append(({"deck": label, "part": ma, "what": "end-to-end"}, "same-up-to-empty-containers" if same else "different"))
         if not same:
-            ctx.fail("e2e:xml-part", f"{label}: {ma} changed by reading the presentation (beyond empty attribute-less containers): {first_difference(ra, rb)}", dict(case, part=ma))
+            who = []
+            try:
+                traverse_and_save(data, random.Random(f"c12-e2e-{ctx.seed}-{label}"), ctx, blame=(ma, who))
+            except Exception:  # noqa
+                pass
+            ctx.fail("e2e:xml-part" + (":" + who[0] if who else ""), f"{label}: {ma} changed by reading the presentation (beyond empty attribute-less containers): "
+                     f"{first_difference(ra, rb)}; changing accessors in a replay of the same traversal: {who[:4]}", dict(case, part=ma, accessors=who[:6]))
 
 
 def first_difference(a, b, path=""):
